@@ -162,11 +162,11 @@ pub fn find_naf(num: &[u64]) -> Vec<i8> {
             .zip(ark_std::iter::once(z).chain(ark_std::iter::repeat(0)))
             .fold(0, |borrow, (a, b)| sbb(a, b, borrow));
     };
-    // Add a value `z` without carry propagation
-    let add_nocarry = |num: &mut [u64], z: u64| {
+    // Add a value `z`; returns the carry out of the most significant limb
+    let add_with_carry = |num: &mut [u64], z: u64| -> u64 {
         num.iter_mut()
             .zip(ark_std::iter::once(z).chain(ark_std::iter::repeat(0)))
-            .fold(0, |carry, (a, b)| adc(a, b, carry));
+            .fold(0, |carry, (a, b)| adc(a, b, carry))
     };
     // Perform an in-place division of the number by 2
     let div2 = |num: &mut [u64]| {
@@ -179,13 +179,15 @@ pub fn find_naf(num: &[u64]) -> Vec<i8> {
 
     // Main loop for NAF computation
     while is_non_zero(&num) {
+        // Rounding up can carry out of the top limb (the number is then 2^(64 * len))
+        let mut carry = 0;
         // Determine the current digit of the NAF representation
         let z = if is_odd(&num) {
             let z = 2 - (num[0] % 4) as i8;
             if z >= 0 {
                 sub_noborrow(&mut num, z as u64);
             } else {
-                add_nocarry(&mut num, (-z) as u64);
+                carry = add_with_carry(&mut num, (-z) as u64);
             }
             z
         } else {
@@ -196,6 +198,11 @@ pub fn find_naf(num: &[u64]) -> Vec<i8> {
         res.push(z);
         // Divide the number by 2 for the next iteration
         div2(&mut num);
+        if carry != 0 {
+            if let Some(top) = num.last_mut() {
+                *top |= 1 << 63;
+            }
+        }
     }
 
     res
